@@ -17,6 +17,7 @@ def sh(cmd, **kw):
     return subprocess.run(cmd, shell=True, capture_output=True, text=True, **kw)
 
 
+sh(f"git -C {wt} add -N src")
 patch = sh(f"git -C {wt} diff -- src").stdout
 assert patch.strip()
 open(f"{out}/patch.diff", "w").write(patch)
@@ -25,7 +26,11 @@ t = sh(f"cd {wt} && /venv/bin/python -m pytest -q -p no:cacheprovider --continue
 for f in ("notes.md", "equiv_check.py"):
     if os.path.exists(f"{wt}/MUTATION/{f}"):
         shutil.copy(f"{wt}/MUTATION/{f}", f"{out}/{f}")
-r = sh(f"/verif/bin/try_patch {out}/patch.diff")
+# the checks run against the worktree itself (BASICTDF_REPO / VERIF_OUT), so /repo is never touched
+import tempfile
+evd = tempfile.mkdtemp(prefix="eval_")
+r = sh(f"/verif/bin/eval_tree {wt} {evd}")
+shutil.rmtree(evd, ignore_errors=True)
 print(r.stdout)
 results = {}
 for line in r.stdout.splitlines():
@@ -34,7 +39,7 @@ for line in r.stdout.splitlines():
         results[cid] = dict(rc=int(rest.split("rc=")[1].split()[0]), violation="VIOLATION" in rest, no_failing_input="no-failing-input-found" in rest)
 alarms = [c for c, v in results.items() if v["rc"] != 0]
 meta = dict(kind="harmless-refactoring", name=name, tests_with_change=t, lines_changed=sum(1 for l in patch.splitlines() if l[:1] in "+-" and l[:3] not in ("+++", "---")),
-            ran=["pytest in the worktree", "/verif/bin/try_patch patch.diff (all 20 quick checks)"], checks=results, false_alarms=alarms,
+            ran=["pytest in the worktree", "/verif/bin/eval_tree <worktree> <tmpdir> (all 20 quick checks with BASICTDF_REPO=<worktree>)"], checks=results, false_alarms=alarms,
             needs=open(f"{out}/notes.md").read()[:1500] if os.path.exists(f"{out}/notes.md") else "")
 json.dump(meta, open(f"{out}/meta.json", "w"), indent=1)
 print("tests:", t, "| lines changed:", meta["lines_changed"], "| alarms:", alarms)
